@@ -23,7 +23,21 @@ Effects (in order, loop-nested): ('UP', v) ('DOWN', v) ('REG', entity, ok_cb, er
 import ast
 
 from .consts import Evaluator, alts as const_alts
-from .repo import unparse, func_is_static, func_is_classmethod
+from .repo import unparse as _unparse, func_is_static, func_is_classmethod
+
+
+def unparse(n):
+    """memoised on the node: the interpreter asks for the text of the same tests over and over (the trees it
+    walks are never mutated)"""
+    try:
+        return n._txt
+    except AttributeError:
+        t = _unparse(n)
+        try:
+            n._txt = t
+        except Exception:
+            pass
+        return t
 
 OTHER = "<other>"
 MAX_DEPTH = 40
